@@ -62,6 +62,7 @@ func (a *basicDownloadAdapter) DoTransfer(ctx interface{}, t *Transfer, cb Progr
 	}
 
 	// Attempt to resume download. No error checking here. If we fail, we'll simply download from the start
+	tools.VerifFs("rename", a.downloadFilename(t), f.Name())
 	tools.RobustRename(a.downloadFilename(t), f.Name())
 
 	// Open temp file. It is either empty or partially downloaded
@@ -100,6 +101,7 @@ func (a *basicDownloadAdapter) DoTransfer(ctx interface{}, t *Transfer, cb Progr
 		f.Close()
 		// Rename file so next download can resume from where we stopped.
 		// No error checking here, if rename fails then file will be deleted and there just will be no download resuming
+		tools.VerifFs("rename", f.Name(), a.downloadFilename(t))
 		tools.RobustRename(f.Name(), a.downloadFilename(t))
 	}
 
